@@ -1,6 +1,7 @@
 #include "eigen_assert_hook.hpp"
 #include "iface.hpp"
 #include "iface_opt.hpp"
+#include <cmath>
 #include <map>
 #include <stdexcept>
 namespace vf
@@ -36,6 +37,37 @@ static const SplineFactory &sf(int order, int dim)
     return it->second;
 }
 std::unique_ptr<ISpline> makeSpline(int order, int dim) { return sf(order, dim).makeDefault(); }
+Problem staticInitProblem(int order, int dim)
+{
+    // fixed data, no generator: this runs before main()
+    Problem p;
+    p.order = order;
+    p.dim = dim;
+    p.N = 3;
+    p.T = {0.7, 1.3, 0.9};
+    p.t0 = 0.25;
+    p.P.resize(4, dim);
+    p.bc.setZero(dim);
+    for (int j = 0; j < dim; ++j)
+    {
+        for (int i = 0; i < 4; ++i)
+            p.P(i, j) = 2.0 * std::sin(1.3 * i + 0.7 * j) + 0.1 * j;
+        p.bc.sv(j) = 0.3 + 0.1 * j;
+        p.bc.ev(j) = -0.2 + 0.05 * j;
+        p.bc.sa(j) = 0.15 * (j + 1);
+        p.bc.ea(j) = -0.1;
+        p.bc.sj(j) = 0.05;
+        p.bc.ej(j) = 0.02 * (j + 1);
+    }
+    return p;
+}
+const StaticInitRecord &splineStaticInit(int order, int dim)
+{
+    const SplineFactory &f = sf(order, dim);
+    if (!f.staticInit)
+        throw std::runtime_error("no static-initialisation record for this spline cell");
+    return *f.staticInit;
+}
 std::unique_ptr<ISpline> makeSplineDur(const Problem &p) { return sf(p.order, p.dim).makeCtor(p, 0); }
 std::unique_ptr<ISpline> makeSplinePts(const Problem &p) { return sf(p.order, p.dim).makeCtor(p, 1); }
 std::unique_ptr<ISpline> makeSplineDurDefaultBC(const Problem &p) { return sf(p.order, p.dim).makeCtor(p, 2); }
